@@ -283,7 +283,7 @@ def judgeExtra2 (hNew hOld : HCtx) (op res : Array String) (dump : Option St) : 
           (fun _ => s!"a={a} b={b} chain={es} crossing={if can then 0 else 1}")
         let lost := piecesCovered k d hOld.abs.cons
         let f6 := chk lost.isEmpty "C13,C04" "split-lost-constraint" (fun _ => s!"lost={lost.length}")
-        let f7 := chk (pa == pb || flaggedReach d (fun w => nearSegment k pa pb (d.P w)) a b) "C13"
+        let f7 := chk (pa == pb || flaggedReach d (fun w => nearSegment k pa pb (d.P w)) a b) "C13,C04"
           "split-new-constraint-not-covered" (fun _ => s!"a={a} b={b}")
         let a' : AState := { verts := ((List.range d.nV).map fun i => (d.P i, d.data.getD i 0)).toArray,
                              cons := flaggedSegs d }
